@@ -68,6 +68,7 @@ class FaultStore:
         self.fault_text = "s0"
         self.status_trace: list[tuple] = []  # (run_id, status) after every successful handler write
         self.early_terminal_events: list[tuple] = []  # terminal event appended while the row was not terminal
+        self.by_run = False  # several handlers on one store: look rows up by the run id of the write
 
     def __getattr__(self, name: str) -> Any:
         return getattr(self._inner, name)
@@ -90,33 +91,40 @@ class FaultStore:
         if fail:
             raise InjectedFault(self.fault_text)
 
-    def _row(self) -> Any:
+    def _row(self, run_id: str | None = None) -> Any:
+        """the handler row of `run_id` (default: of `self.handler_id`), read behind the proxy"""
         hs = getattr(self._inner, "handlers", None)
         if hs is not None:
-            return hs.get(self.handler_id)
-        import sqlite3
-
+            if run_id is None:
+                return hs.get(self.handler_id)
+            for h in hs.values():
+                if h.run_id == run_id:
+                    return h
+            return None
         with self._inner._connect() as conn:
-            r = conn.execute("SELECT run_id, status FROM handlers WHERE handler_id = ?", (self.handler_id,)).fetchone()
+            if run_id is None:
+                r = conn.execute("SELECT run_id, status FROM handlers WHERE handler_id = ?", (self.handler_id,)).fetchone()
+            else:
+                r = conn.execute("SELECT run_id, status FROM handlers WHERE run_id = ?", (run_id,)).fetchone()
         if r is None:
             return None
         return type("Row", (), {"run_id": r[0], "status": r[1]})()
 
-    def _note(self) -> None:
-        row = self._row()
+    def _note(self, run_id: str | None = None) -> None:
+        row = self._row(run_id) if self.by_run else self._row()
         if row is not None:
             self.status_trace.append((row.run_id, row.status))
 
     async def update_handler_status(self, run_id: str, **kw: Any) -> None:
         self._gate("uhs", (run_id, kw.get("status"), "idle_since" in kw))
         await self._inner.update_handler_status(run_id, **kw)
-        self._note()
+        self._note(run_id)
 
     async def append_event(self, run_id: str, event: Any) -> None:
         types = list(getattr(event, "types", None) or []) + [event.type]
         self._gate("app", (run_id, event.type, "StopEvent" in types))
         if "StopEvent" in types:
-            row = self._row()
+            row = self._row(run_id) if self.by_run else self._row()
             if row is not None and row.run_id == run_id and row.status not in TERMINAL:
                 self.early_terminal_events.append((run_id, event.type, row.status))
         await self._inner.append_event(run_id, event)
@@ -124,7 +132,7 @@ class FaultStore:
     async def update(self, handler: Any) -> None:
         self._gate("upd", (handler.run_id, handler.status))
         await self._inner.update(handler)
-        self._note()
+        self._note(handler.run_id)
 
 
 def canon_error(text: str | None) -> str:
@@ -607,6 +615,7 @@ class CaseResult:
     start_error: str | None = None
     record: Any = None  # PersistentHandler after quiescence
     record_late: Any = None  # after the idle timers have fired
+    replay_case: Any = None  # for a run that is part of a history: the whole history
     cancel_result: Any = None  # what cancel_handler answered for a handler that had been released while idle
     released_at_cancel: bool = False
     record_restart: Any = None  # after a process crash and `_on_server_start` on a fresh stack over the same store
@@ -871,3 +880,221 @@ def _snap(h: Any) -> dict | None:
     return {"status": h.status, "run_id": h.run_id, "error": h.error, "has_result": h.result is not None,
             "result_uid": getattr(h.result, "uid", None), "completed_at": h.completed_at is not None,
             "idle_since": h.idle_since is not None}
+
+
+# ==========================================================================
+# (S) histories: several runs, one after the other and some together, on ONE stack / runtime instance
+
+
+class HistoryPlan:
+    """per-run transient faults on the two retried writes: the first `upd` upserts of the run's handler row and the
+    first `uhs` terminal status writes of the run raise.  Runs are told apart by run id (registered at the first upsert)."""
+
+    def __init__(self, items: list[dict]):
+        self.left = [{"upd": int(it.get("upd", 0)), "uhs": int(it.get("uhs", 0))} for it in items]
+        self.index: dict[str, int] = {}
+        self.next_index = 0
+        self.expect: list[int] = []  # queue of history indices whose start is in progress
+
+    def upd(self, i: int, info: Any) -> bool:
+        run_id = info[0]
+        if run_id not in self.index:
+            self.index[run_id] = self.expect.pop(0) if self.expect else self.next_index
+        idx = self.index[run_id]
+        if idx < len(self.left) and self.left[idx]["upd"] > 0:
+            self.left[idx]["upd"] -= 1
+            return True
+        return False
+
+    def uhs(self, i: int, info: Any) -> bool:
+        idx = self.index.get(info[0])
+        if idx is None or info[1] not in TERMINAL:
+            return False
+        if self.left[idx]["uhs"] > 0:
+            self.left[idx]["uhs"] -= 1
+            return True
+        return False
+
+
+def run_history(case: dict) -> list[CaseResult]:
+    """case = {"store", "idle_timeout", "backoff", "seed", "actions", "history": [{"spec", "upd", "uhs", "with_next"}, ...]}
+    -> one CaseResult per run (same fields as `run_case`, writes / status trace restricted to that run)"""
+    from workflows.errors import WorkflowCancelledByUser, WorkflowTimeoutError
+    from workflows.events import StopEvent
+
+    live.install_observers()
+    _install_entered_hook()
+    items = case["history"]
+    rng = random.Random(case.get("seed", 0))
+    master = live.Run({"steps": [], "externals": []}, rng, case.get("actions"))
+    backoff = case.get("backoff")
+    budget = len(backoff) if backoff is not None else 2
+    idle_timeout = case.get("idle_timeout")
+    runs = [live.Run(it["spec"], random.Random(rng.randrange(1 << 30))) for it in items]
+    results = [CaseResult(case={"store": case.get("store", "memory"), "idle_timeout": idle_timeout, "backoff": backoff, "spec": it["spec"],
+                                "fault": ({"kind": "uhs_terminal", "k": int(it.get("uhs", 0)), "upd": int(it.get("upd", 0))}
+                                          if (it.get("uhs") or it.get("upd")) else None),
+                                "history_index": i, "history_len": len(items)}, budget=budget) for i, it in enumerate(items)]
+    entered: list = []
+    _ENTERED.append(entered)
+    live._ACTIVE.append(master)
+    active: list[int] = []  # indices of runs whose handler is being awaited
+    state: dict[str, Any] = {"st": None, "quiet": {}, "stuck": set()}
+    horizon = 300.0
+
+    async def _swallow(i: int, coro: Any) -> None:
+        try:
+            await coro
+        except Exception as e:
+            results[i].notes.append(f"external op failed: {type(e).__name__}")
+
+    def hook_factory(loop: VLoop):
+        def hook() -> bool:
+            st = state["st"]
+            if st is None or not active:
+                return False
+            options: list[tuple[str, Any]] = []
+            for i in active:
+                options += [("gate", (i, key)) for key in list(runs[i].waiting)]
+                q = state["quiet"].get(i, 0)
+                for j, ext in enumerate(runs[i].externals):
+                    if ext.get("after_quiet", 0) <= q and ext["op"] in ("send", "cancel"):
+                        options.append(("ext", (i, j)))
+                state["quiet"][i] = q + 1
+            near = any((not h._cancelled) and h._when <= loop.time() + horizon for h in loop._scheduled)  # type: ignore[attr-defined]
+            if not options:
+                todo = [i for i in active if i not in state["stuck"]]
+                if not near and todo:
+                    for i in todo:
+                        state["stuck"].add(i)
+                        results[i].notes.append("stuck: cancelled through the service")
+                        loop.create_task(_swallow(i, st.cancel(f"h{i}")))
+                    return True
+                return False
+            if near:
+                options.append(("time", None))
+            kind, arg = options[master.choose(len(options))]
+            if kind == "time":
+                return False
+            i = arg[0]
+            if kind == "gate":
+                runs[i].waiting.remove(arg[1])
+                runs[i].gates[arg[1]].set()
+                return True
+            ext = runs[i].externals.pop(arg[1])
+            if ext["op"] == "cancel":
+                loop.create_task(_swallow(i, st.cancel(f"h{i}")))
+            else:
+                loop.create_task(_swallow(i, st.send(f"h{i}", ET.mk(ext["ty"], runs[i].fresh(), ext.get("k")), step=ext.get("step"))))
+            return True
+
+        return hook
+
+    async def main(loop: VLoop) -> None:
+        base, dbp = make_store(case.get("store", "memory"))
+        fs = FaultStore(base)
+        fs.by_run = True
+        plan = HistoryPlan(items)
+        fs.plan = {"upd": plan.upd, "uhs": plan.uhs}
+        st = Stack.build(case.get("store", "memory"), idle_timeout=idle_timeout, persistence_backoff=backoff, store=fs, db_path=dbp)
+        try:
+            for i, it in enumerate(items):
+                try:
+                    st.add_workflow(f"wf{i}", (lambda i=i: live.build_workflow(items[i]["spec"], runs[i])))
+                except Exception as e:
+                    results[i].outcome, results[i].outcome_detail = "invalid", repr(e)
+            await st.start()
+            state["st"] = st
+
+            async def one(i: int) -> None:
+                res = results[i]
+                if res.outcome == "invalid":
+                    return
+                plan.expect.append(i)
+                try:
+                    hd = await st.start_run(f"wf{i}", f"h{i}", ET.T0(uid=1, k=items[i]["spec"].get("start_k")))
+                except InjectedFault:
+                    res.start_error = "fault"
+                    if i in plan.expect:
+                        plan.expect.remove(i)
+                    res.record = await st.handler(f"h{i}")
+                    return
+                except Exception as e:
+                    res.outcome, res.outcome_detail = "invalid", repr(e)
+                    if i in plan.expect:
+                        plan.expect.remove(i)
+                    return
+                res.started = True
+                res.run_id = hd.run_id
+                h = st.service._workflow_run_handler(f"wf{i}", hd.run_id)
+                active.append(i)
+                try:
+                    r = await h
+                    res.outcome = "result"
+                    res.result_uid = getattr(r, "uid", None)
+                except WorkflowCancelledByUser:
+                    res.outcome = "cancelled"
+                except WorkflowTimeoutError as e:
+                    res.outcome, res.outcome_detail = "timeout", str(e)
+                except asyncio.CancelledError:
+                    res.outcome = "aborted"
+                except InjectedFault as e:
+                    res.outcome, res.outcome_detail = "store_fault", str(e)
+                except live.RunawayRun:
+                    res.outcome = "runaway"
+                except BaseException as e:  # noqa: BLE001
+                    res.outcome_detail = (type(e).__name__, str(e))
+                    failed = [x for x in entered if x[0] == hd.run_id and x[1] == "WorkflowFailedEvent"]
+                    res.outcome = "step_failure" if failed else "engine_failure"
+                finally:
+                    if i in active:
+                        active.remove(i)
+                for _ in range(30):
+                    await asyncio.sleep(0)
+                res.record = _snap(await st.handler(f"h{i}"))
+                res.events = [e.event.type for e in await st.events(hd.run_id)]
+
+            i = 0
+            while i < len(items):
+                group = [i]
+                while items[group[-1]].get("with_next") and group[-1] + 1 < len(items):
+                    group.append(group[-1] + 1)
+                await asyncio.gather(*[one(j) for j in group])
+                i = group[-1] + 1
+            await asyncio.sleep((idle_timeout or 0) * 2 + 10)
+            for _ in range(10):
+                await asyncio.sleep(0)
+            for i, res in enumerate(results):
+                if res.started:
+                    res.record_late = _snap(await st.handler(f"h{i}"))
+        finally:
+            for i, res in enumerate(results):
+                rid = res.run_id
+                res.writes = [w for w in fs.writes if rid is not None and w[1][0] == rid]
+                res.status_trace = [t for t in fs.status_trace if t[0] == rid]
+                res.early_terminal_events = [t for t in fs.early_terminal_events if t[0] == rid]
+            try:
+                if st.idle is not None:
+                    for t in list(st.idle._background_tasks):
+                        t.cancel()
+            except Exception:
+                pass
+            st.cleanup()
+
+    try:
+        try:
+            run_virtual(main, max_time=1e7, hook_factory=hook_factory)
+        except TimeoutError:
+            for res in results:
+                if res.outcome == "pending":
+                    res.outcome = "deadlock"
+    finally:
+        live._ACTIVE.pop()
+        _ENTERED.pop()
+    replay_case = {k: case.get(k) for k in ("store", "idle_timeout", "backoff", "seed", "history")}
+    replay_case["actions"] = list(master.trace.actions)
+    for res in results:
+        res.entered = [(r, n) for (r, n, _e) in entered if r == res.run_id]
+        res.actions = list(master.trace.actions)
+        res.replay_case = replay_case
+    return results
